@@ -186,20 +186,49 @@ var mcpPort int
 // connection's own (it then gets the lowest free number, e.g. the one a handler has just closed).
 var reusedTotal int64 // Opens that got the descriptor number of a closed object
 
-func tcpPair(ioc *sonic.IO, ln net.Listener) (sonic.Conn, int, error) {
-	if ln == nil {
-		var err error
-		ln, err = net.Listen("tcp", "127.0.0.1:0")
+// One listener per driver process serves every connection the scenarios make (a listener per object used up
+// the ephemeral ports in the largest covers: closed connections keep their ports in TIME_WAIT for a minute).
+var (
+	sharedLnOnce sync.Once
+	sharedLn     net.Listener
+	sharedLnErr  error
+)
+
+func listener() (net.Listener, error) {
+	sharedLnOnce.Do(func() { sharedLn, sharedLnErr = net.Listen("tcp", "127.0.0.1:0") })
+	return sharedLn, sharedLnErr
+}
+
+// acceptFor takes the connection that was dialled from local port `port` out of the listener's queue.
+func acceptFor(ln net.Listener, port int) (net.Conn, error) {
+	for {
+		pc, err := ln.Accept()
 		if err != nil {
-			return nil, -1, err
+			return nil, err
 		}
-		defer ln.Close()
+		if ra, ok := pc.RemoteAddr().(*net.TCPAddr); ok && (port == 0 || ra.Port == port) {
+			return pc, nil
+		}
+		pc.Close() // left over from a set-up that failed half-way
+	}
+}
+
+func tcpPair(ioc *sonic.IO, _ net.Listener) (sonic.Conn, int, error) {
+	ln, err := listener()
+	if err != nil {
+		return nil, -1, err
 	}
 	c, err := sonic.Dial(ioc, "tcp", ln.Addr().String(), sonicopts.Nonblocking(true), sonicopts.NoDelay(true))
 	if err != nil {
 		return nil, -1, err
 	}
-	pc, err := ln.Accept()
+	port := 0
+	if sa, err := syscall.Getsockname(c.RawFd()); err == nil {
+		if s4, ok := sa.(*syscall.SockaddrInet4); ok {
+			port = s4.Port
+		}
+	}
+	pc, err := acceptFor(ln, port)
 	if err != nil {
 		return nil, -1, err
 	}
@@ -232,16 +261,15 @@ func (d *drv) mk(kind string, idx int) (*object, error) {
 		o.fd = c.RawFd()
 	case "adp":
 		// net.Conn wrapped by sonic.NewAsyncAdapter
-		ln, err := net.Listen("tcp", "127.0.0.1:0")
+		ln, err := listener()
 		if err != nil {
 			return nil, err
 		}
-		defer ln.Close()
 		nc, err := net.Dial("tcp", ln.Addr().String())
 		if err != nil {
 			return nil, err
 		}
-		pc, err := ln.Accept()
+		pc, err := acceptFor(ln, nc.LocalAddr().(*net.TCPAddr).Port)
 		if err != nil {
 			return nil, err
 		}
@@ -1054,17 +1082,8 @@ func (d *drv) scenario(h []Ev) (err error) {
 		return err
 	}
 	defer d.cleanup()
-	d.lateLn = nil
-	var lateLn net.Listener
-	if reset.D != 0 {
-		// bit k of Reset.d: object k+1 does not exist yet, an Open command creates it
-		ln, err := net.Listen("tcp", "127.0.0.1:0")
-		if err != nil {
-			return err
-		}
-		defer ln.Close()
-		defer func() { d.lateLn = nil }()
-		lateLn = ln
+	if _, err := listener(); err != nil { // made before anything of the scenario, so that it never takes a freed number
+		return err
 	}
 	for k, kind := range reset.Kinds {
 		if reset.D&(1<<uint(k)) != 0 {
@@ -1077,7 +1096,6 @@ func (d *drv) scenario(h []Ev) (err error) {
 		}
 		d.objs = append(d.objs, ob)
 	}
-	d.lateLn = lateLn // objects made above used listeners of their own; Open dials this one
 	d.lateTimers = reset.H != 0
 	for k := 0; k < reset.N; k++ {
 		if reset.H&(1<<uint(k)) != 0 {
